@@ -368,3 +368,8 @@ for pid in ('C04', 'C07', 'C16'):
             PROPS[pid]['mir'][tier].append(mrun(['try_boxed_from_iter'], nmax=3 if tier == 'quick' else 6))
             PROPS[pid]['mir'][tier].append({'scenarios': ['try_boxed_from_iter@ind'], 'nmax': 3, 'timeout': 1800, 'soft_inconclusive': True})
     PROPS[pid]['assumptions'] = list(PROPS[pid].get('assumptions', [])) + ['M stub: Vec::with_capacity / extend / len / set_len / spare_capacity_mut / into_boxed_slice and Box<[T]> into_raw / from_raw behave as documented (extend publishes the length per item; reallocation beyond the reserved capacity is reported, not modelled)']
+
+# stated limits that the third seeded round made explicit
+PROPS['C14']['outside'] = list(PROPS['C14'].get('outside', [])) + ['targets whose byte order differs from the host\'s (the checks compile and model the host target; a `to_ne_bytes` slip in the fallback encoder is invisible on little-endian)']
+PROPS['C15']['outside'] = list(PROPS['C15'].get('outside', [])) + ['stack depth: building the array on the stack before boxing it (e.g. `Box::new(arr![x; n])`) is observationally equal to in-place construction in both engines']
+PROPS['C19']['outside'] = list(PROPS['C19'].get('outside', [])) + ['const_default() is checked as the loop-free type-level recursion it is; an implementation with run-time loops over 1024-element blocks exceeds the unwinding bound / CBMC time limit and ends inconclusive (exit 2), neither passes nor is reported as a violation']
